@@ -98,6 +98,12 @@ def run_value(f):
 
 
 def replay(case):
+    if "aborted_at_line_event" in case:
+        from bounded.common import run_interrupted
+        f = FmtStr(*[Chunk(t, dict(a)) for t, a in case["runs"]])
+        run_interrupted(lambda: str(f), case["aborted_at_line_event"])
+        d = run_value(f)
+        return d == "", d
     d = run_case([(t, a) for t, a in case["runs"]], derive=True)
     return d == "", d
 
@@ -173,7 +179,33 @@ def derived(check, tier, seed):
     s.done()
 
 
+INTERRUPT_RUNS = [[("head|", {}), ("middle|", {"fg": 31, "bg": 44, "bold": True}), ("tail", {"underline": True})],
+                  [("a", {"fg": 32}), ("", {"bold": True}), ("b\n", {"bg": 41})],
+                  [("x", {"invert": True})],
+                  [("p", {}), ("q", {}), ("r", {"dark": True}), ("s", {"fg": 35, "underline": True})]]
+
+
+def interrupted(check, tier):
+    """a str(f) that is aborted half-way (Ctrl-C delivered through the SIGINT handler, MemoryError, RecursionError) must not leave
+    anything behind that a later, complete str(f) hands out: every abort point of the rendering of a few values, then the oracle"""
+    from bounded.common import interrupted_then
+    s = Suite(check, "C01.interrupted", "str(f) aborted at each of its executed lines (asynchronous exception), then str(f) again on the same "
+              "value: displays exactly the value's cells", bound=f"{len(INTERRUPT_RUNS)} values x every abort point")
+    for runs in INTERRUPT_RUNS:
+        build = lambda: FmtStr(*[Chunk(t, dict(a)) for t, a in runs])
+        n = 0
+        for k, d in interrupted_then(build, str, run_value):
+            s.case(("int", str(runs), k), sample=dict(runs=[[t, a] for t, a in runs], aborted_at_line_event=k) if k == 3 else None)
+            if not d:
+                continue
+            case = dict(runs=[[t, a] for t, a in runs], aborted_at_line_event=k)
+            s.fail("C01.str.after_interrupted_render", case, f"after a str(f) aborted at its line event #{k}: {d}",
+                   replay={"kind": "suite", "module": "props.C01", "case": case})
+    s.done()
+
+
 def run(check, tier, seed):
     deductive(check, tier)
     bounded(check, tier, seed)
     derived(check, tier, seed)
+    interrupted(check, tier)
